@@ -207,6 +207,20 @@ theorem solve_unique {n nx : Nat} (A : Mat ℝ n n) (s : State ℝ n n) (hc : co
   have := congrArg (fun M => (toMatrix A)⁻¹ * M) (h1.trans h2.symm)
   simpa [← Matrix.mul_assoc, Matrix.nonsing_inv_mul _ hu] using this
 
+/-- **which number the threshold is.**  At the reals `threshold` is the rational
+`Generated.thresholdNum / Generated.thresholdDen` that `tools/gen_lu_constants.py` re-extracts on
+every run: the *exact value of the double* denoted by the literal of `NumConstants::SMALL()`
+(`1e-6` ↦ `4722366482869645 / 2^72`, slightly below `10⁻⁶`), not the decimal value of the literal.
+The translator asserts that `num / den` is exact in binary64 and the driver checks on every `solve`
+that the `Float` instantiation's threshold has this very value (`FAIL:threshold_value`), so
+`singular_raises` / `solve_returns` / `solve_outcome` speak about the number the C++ compares
+with.  The threshold is absolute (not scaled by `‖A‖`) and positive. -/
+theorem threshold_value :
+    (threshold : ℝ) = (Generated.thresholdNum : ℝ) / (Generated.thresholdDen : ℝ) ∧ (0 : ℝ) < threshold := by
+  refine ⟨?_, threshold_pos⟩
+  unfold threshold
+  simp [ScalarReal.ofRat_eq]
+
 /-- a pivot below the threshold makes `solve` raise `ZeroDivisionException` (never an answer),
 whatever the right-hand side of the right height -/
 theorem singular_raises {n nx : Nat} (s : State ℝ n n) (B : Mat ℝ n nx)
